@@ -799,6 +799,9 @@ type c18Result struct {
 	hasValue  bool
 	compile   error
 	panicked  any
+	hung      bool
+	starts    map[int]int
+	filled    map[int]int
 }
 
 func c18Execute(w *c18WF, plan *c18Plan) (ru *c18Run, res *c18Result) {
@@ -839,7 +842,29 @@ func c18Execute(w *c18WF, plan *c18Plan) (ru *c18Run, res *c18Result) {
 		parent, cancel := context.WithCancel(context.Background())
 		ru.cancel = cancel
 		defer cancel()
-		err := c.Run(parent)
+		// Run on its own goroutine so that a controller that never returns is reported
+		// instead of hanging the check (generous bound: a run takes milliseconds).
+		done := make(chan error, 1)
+		go func() {
+			defer func() {
+				if e := recover(); e != nil {
+					done <- fmt.Errorf("panic: %v", e)
+				}
+			}()
+			done <- c.Run(parent)
+		}()
+		var err error
+		select {
+		case err = <-done:
+		case <-time.After(90 * time.Second):
+			res.hung = true
+			cancel()
+			return
+		}
+		if err != nil && strings.HasPrefix(err.Error(), "panic: ") {
+			res.panicked = err.Error()
+			return
+		}
 		// the controller goroutine has returned: its state no longer changes
 		res.finalSnap = c18Snapshot(c)
 		res.final = c.Tasks()
@@ -873,6 +898,14 @@ func c18Execute(w *c18WF, plan *c18Plan) (ru *c18Run, res *c18Result) {
 	}()
 	ru.mu.Lock()
 	res.events = append([]c18Event(nil), ru.events...)
+	res.starts = map[int]int{}
+	for k, v := range ru.starts {
+		res.starts[k] = v
+	}
+	res.filled = map[int]int{}
+	for k, v := range ru.filled {
+		res.filled[k] = v
+	}
 	ru.mu.Unlock()
 	return
 }
@@ -965,7 +998,8 @@ func c18Judge(c *Cfg, w *c18WF, plan *c18Plan, ru *c18Run, res *c18Result, prima
 		return
 	}
 	c.Direct(res.panicked == nil, "panic", fmt.Sprintf("flow panicked: %v", res.panicked), replay)
-	if res.panicked != nil {
+	c.Direct(!res.hung, "hang", "Controller.Run did not return within 90 s", replay)
+	if res.panicked != nil || res.hung {
 		return
 	}
 	replay["trace"] = c18TraceLine(res.events)
@@ -1030,7 +1064,7 @@ func c18Judge(c *Cfg, w *c18WF, plan *c18Plan, ru *c18Run, res *c18Result, prima
 		}
 	}
 	// (2) at most once
-	for id, n := range ru.starts {
+	for id, n := range res.starts {
 		c.Direct(n <= 1, "ran-twice", fmt.Sprintf("task %d was started %d times", id, n), replay)
 	}
 	// started tasks were dispatched by the controller (state Running or later)
@@ -1042,7 +1076,7 @@ func c18Judge(c *Cfg, w *c18WF, plan *c18Plan, ru *c18Run, res *c18Result, prima
 	if plain && !ru.cyc {
 		all := res.rkind == "ok" && len(res.final) == len(w.tasks)
 		for id := range w.tasks {
-			if ru.starts[id] != 1 || finalState[id] != flow.Terminated {
+			if res.starts[id] != 1 || finalState[id] != flow.Terminated {
 				all = false
 			}
 		}
@@ -1120,7 +1154,7 @@ func c18Judge(c *Cfg, w *c18WF, plan *c18Plan, ru *c18Run, res *c18Result, prima
 					if !exp.LookupPath(p).Exists() {
 						continue
 					}
-					exp = exp.FillPath(p, map[string]any{"out": ru.filled[id]})
+					exp = exp.FillPath(p, map[string]any{"out": res.filled[id]})
 					delete(pending, id)
 				}
 			}
